@@ -39,6 +39,15 @@ def tlsh(data,buckets=128,window=5,chklen=1,force=False):
     sw=lambda x:((x&15)<<4)|(x>>4)
     return bytes([sw(x) for x in ck]+[sw(L),(r1<<4)|r2])+bytes(code[::-1])
 
+def tlsh_buckets(data, window=5):
+    """the 256 bucket counts (used by generators that aim at the bucket-population gate)"""
+    bk = [0] * 256
+    for i in range(window - 1, len(data)):
+        c0 = data[i]
+        for salt, o1, o2 in TRIP[:NTRIP[window]]:
+            bk[pearson(salt, c0, data[i - o1], data[i - o2])] += 1
+    return bk
+
 def tlsh_header(h, chklen):
     """(checksum bytes, Lvalue, q1 ratio, q2 ratio, code) from digest bytes"""
     sw = lambda x: ((x & 15) << 4) | (x >> 4)
